@@ -56,7 +56,9 @@ func tClient(cli string, cache tlcp.SessionCache) *tlcp.Config {
 }
 
 func cvBitsOf(cli string) string {
-	if cli == "wrongkey" {
+	// wrongkey: signed with a key that is not the certificate's; p256: an ECDSA P-256 signature
+	// is not an SM2 signature under the certificate's key (the independent check agrees)
+	if cli == "wrongkey" || cli == "p256" {
 		return "01"
 	}
 	return "11"
